@@ -1,3 +1,4 @@
 import FlowCalDriver.Json
 import FlowCalDriver.Text
 import FlowCalDriver.File
+import FlowCalDriver.Index
